@@ -12,6 +12,12 @@ denotes (C11Executor.config_object: module-level frozen-dataclass instance, fiel
 argument).  (2) C11Executor._filter_loop: an entry loop over a lazily filtered sequence (generator expression, one-line filter
 helper, filter / itertools.filterfalse) is executed as the loop-with-continue it is, under the LoopSpec of the original statement.
 Whatever is read off a code shape and not recognised is `unknown` (native replay decides), never a definite verdict.
+
+Round 7: the consumers of the guard are under deductive contracts too (contracts/C11_ctx.py): ZipContext.__init__ and every method
+that touches the handle (class invariant: the kept handle is an open container ACCEPTED under the configured limits), the zip_utils
+readers, encryption.is_odf_encrypted.  Member accesses (ZipFile.read / open / namelist ...) are assumed library calls whose
+precondition `accepted and open` is a proved call-pre obligation.  `limits_param(fn).default` now also serves calls from other
+modules of the package (evaluated in the guard module).
 """
 import z3
 
@@ -1147,11 +1153,23 @@ EXTRA = [policy, propagation, configuration]
 
 TRUSTED = ["zipfile.ZipFile.infolist()/ZipInfo fields present the central directory (assumed view)"]
 ASSUMED_MODELS = ["zipfile.ZipFile (constructor, infolist, close, context manager)", "zipfile.ZipInfo.file_size/compress_size/is_dir",
-                  "io.BytesIO.tell/seek"]
+                  "io.BytesIO.tell/seek",
+                  "zipfile.ZipFile.read/open/getinfo/extract/extractall/testzip (member access: result unknown, KeyError for a missing "
+                  "member, may raise anything; its PRECONDITION `container accepted under the configured limits and open` is proved at "
+                  "every call: call-pre#member-access-on-accepted-open-container)",
+                  "zipfile.ZipFile.namelist (total on an open container, abstract name collection; same proved precondition)",
+                  "zipfile.is_zipfile (total, some Boolean, moves the stream)"]
 ASSUMPTIONS = ["PY-INT", "PY-FLOAT-REAL: size ratios compared over the reals", "PY-EXC / EXC-ANY for library calls",
                "ZipInfo sizes are non-negative integers", "configured total-size limit is non-negative",
                "policy obligations (zipfile constructor sites, validate-before-read) are decided by an interprocedural must-dataflow analysis "
                "(back end 'dataflow'; summaries for helpers, private helpers analysed in place); a fact the analysis cannot establish is "
                "`unknown` and goes to the native event monitor (replay/C11.py), only a recognised bad shape is `refuted`"]
+
+ASSUMPTIONS += ["round 7: ZipContext.__init__ / read_bytes / open_stream / read_xml_root / read_text / close, zip_utils.read_zip_text / "
+                "read_zip_xml_root and encryption.is_odf_encrypted are verified on their real bodies (class invariant `the kept handle is an "
+                "open container the guard accepted under the configured limits`); the ZipContext SUBCLASSES, xlsx_extractor.read_xlsx and the "
+                "extractor bodies are still covered only by the must-dataflow typestate + native event monitor (not deductive)",
+                "`type(obj).__name__` is some string; `any()/all()` over an unknown library value that touches no container is some Boolean "
+                "and may raise anything (pack executor, round 7)"]
 
 REPLAY_UNKNOWN = True    # undecided / out-of-subset items are searched natively (replay) before being reported UNDECIDED
